@@ -13,6 +13,7 @@ spec/C12/CfgArea.tla     the area as a state machine: Template / LoadConfig / Se
 import copy
 import hashlib
 import json
+import re
 import os
 import time
 
@@ -645,7 +646,7 @@ def check_tv_output(res, rej):
     """The shared driver does not know every way a TLC run can end early: be strict here."""
     if "Model checking completed" not in res.out or any(l.startswith("Error:") for l in res.out.splitlines()):
         raise Machinery("trace validation did not run to completion:\n" + "\n".join(l for l in res.out.splitlines() if not l.startswith(("Parsing", "Semantic", "Linting", "Computed")))[-1500:])
-    if len(rej) != res.out.count('<<"REJ"'):
+    if len(rej) != len(re.findall(r'^<<\s*"REJ"', res.out, re.M)):      # TLC wraps long tuples as  << "REJ",\n   ...
         raise Machinery("a REJ line of the trace validation could not be read back")
 
 
